@@ -132,9 +132,37 @@ static void filter_case (long idx, vf_rng *rng)
         axis_random (rng, &ax); axis_random (rng, &ay);
         if (vf_chance (rng, 1, 6)) ay = ax;
         if (vf_chance (rng, 1, 6)) { ay = ax; ay.bits = (int)(vf_next (rng) % NBITS); }
+        /* the two axes (and consecutive calls) ask for nearly the same table: same kernels and depth, scales one or two units apart, placed where the
+         * table width steps (kernel widths are 1, 2, 4, 6: the width changes where scale * k is an integer) */
+        if (vf_chance (rng, 1, 4)) {
+            static const int den[] = { 1, 2, 3, 4, 6, 8 };
+            ax.scale = (pixman_fixed_t)(vf_range (rng, 1, 24) * 65536 / VF_PICK (rng, den)) + (pixman_fixed_t)vf_range (rng, -1, 1);
+            if (ax.scale < 1) ax.scale = 1;
+            ay = ax; ay.scale = ax.scale + (vf_chance (rng, 1, 2) ? 1 : -1) * (int)vf_range (rng, 1, 2); if (ay.scale < 1) ay.scale = ax.scale + 1;
+            if (ax.bits > 4) ax.bits = ay.bits = (int)vf_range (rng, 0, 4);
+            vf_count ("near_equal_axis_pairs", 1);
+        }
     }
     axis_clamp (&ax); axis_clamp (&ay);
     check_block (&ax, &ay, (int)(vf_next (rng) % 8));
+    /* the block is a function of the arguments alone: the same request repeated after a different one gives the same bytes */
+    if (strcmp (vf.config, "grid") && (idx & 1)) {
+        int n1 = -1, n2 = -1, n3 = -1;
+        vf_inflight ("create_separable_convolution repeated after another request: x=(%s,%s,0x%x,%d) y=(%s,%s,0x%x,%d)", kn[ax.rk], kn[ax.sk], (unsigned)ax.scale, ax.bits, kn[ay.rk], kn[ay.sk], (unsigned)ay.scale, ay.bits);
+        pixman_fixed_t *p1 = pixman_filter_create_separable_convolution (&n1, ax.scale, ay.scale, ax.rk, ay.rk, ax.sk, ay.sk, ax.bits, ay.bits);
+        pixman_fixed_t *p2 = pixman_filter_create_separable_convolution (&n2, ay.scale, ax.scale, ay.rk, ax.rk, ay.sk, ax.sk, ay.bits, ax.bits);      /* axes exchanged */
+        pixman_fixed_t *p3 = pixman_filter_create_separable_convolution (&n3, ax.scale, ay.scale, ax.rk, ay.rk, ax.sk, ay.sk, ax.bits, ay.bits);
+        vf_count ("evaluations", 2); vf_count ("repeated_requests", 1);
+        if (p1 && p3 && (n1 != n3 || memcmp (p1, p3, (size_t)n1 * sizeof *p1)))
+            vf_violation ("C18:same-request-different-block", "the same request gives different blocks before and after an intervening request with the axes exchanged (lengths %d and %d)", n1, n3);
+        /* and the x table of a request is the y table of the exchanged request */
+        if (p1 && p2 && n1 == n2 && n1 >= 4) {
+            int w = pixman_fixed_to_int (p1[0]), h = pixman_fixed_to_int (p1[1]); long nx = (long)w * (1 << ax.bits), ny = (long)h * (1 << ay.bits);
+            if (4 + nx + ny == n1 && p2[0] == p1[1] && p2[1] == p1[0] && (memcmp (p1 + 4, p2 + 4 + ny, (size_t)nx * sizeof *p1) || memcmp (p1 + 4 + nx, p2 + 4, (size_t)ny * sizeof *p1)))
+                vf_violation ("C18:table-depends-on-axis", "the x table of a request differs from the y table of the same request with the axes exchanged");
+        } else if (p1 && p2 && n1 != n2) vf_violation ("C18:table-depends-on-axis", "exchanging the axes changes the block length (%d vs %d)", n1, n2);
+        free (p1); free (p2); free (p3);
+    }
     if (idx < 3) vf_sample ("x=(%s reconstruct,%s sample,scale=%g,%d bits) y=(%s,%s,scale=%g,%d bits)", kn[ax.rk], kn[ax.sk], ax.scale / 65536.0, ax.bits, kn[ay.rk], kn[ay.sk], ay.scale / 65536.0, ay.bits);
 }
 
